@@ -100,7 +100,7 @@ type planRun struct {
 	log   []string
 	race  bool
 
-	lastUsed     map[*wire.Peer]time.Time // keep-alive bookkeeping only (the node drops a connection it has not heard from for 30 s)
+	lastUsed map[*wire.Peer]time.Time // keep-alive bookkeeping only (the node drops a connection it has not heard from for 30 s)
 
 	gapDropped   map[uint64]bool
 	gapFilled    bool
